@@ -21,6 +21,7 @@ META = {
     "assumptions": [],
 }
 META["claim"] += " " + "Also: look-alike hosts with the domain's dot replaced, and caller cookies equal to / contained in jar cookies."
+META["claim"] += " " + "Round 3b: Host-header override to and from the cookie's domain; Set-Cookie data of 5-12 kB per response."
 
 DOMAINS = ["x.t", "X.T", ".x.t", "s.x.t", "y.t", "t", None]
 PROBES = ["x.t", "X.t", "s.x.t", "ax.t", "y.t", "t", "x-t", "s-x.t", "sxx.t"]
